@@ -243,14 +243,18 @@ theorem addRet_writes (m : MergeCfg) (hk : m.ret ≠ .appendOld) (H : Heap) (st 
 
 theorem condAtom_ext (H : Heap) (a : Nat) : Ext H (condAtom H a).1 := alloc_ext _ _ _
 
-theorem buildCondGroup_ext (H : Heap) (arg : Stmt) : Ext H (buildCondGroup H arg).1 := by
+theorem buildCondGroup_ext (cp : Bool) (H : Heap) (arg : Stmt) : Ext H (buildCondGroup cp H arg).1 := by
   unfold buildCondGroup
   split
   · exact alloc_ext _ _ _
   · simp only
-    have h1 : ∀ w : Slice, Ext H (match readS H w with | [.orc o] => writeAt H w.arr w.off (.andc o) | _ => H) := by
+    have h1 : ∀ w : Slice, Ext H (match readS H w with
+        | [.orc o] => if cp then alloc H [.andc o] 1 else (writeAt H w.arr w.off (.andc o), w)
+        | _ => (H, w) : Heap × Slice).1 := by
       intro w; split
-      · exact writeAt_ext _ _ _ _
+      · split
+        · exact alloc_ext _ _ _
+        · exact writeAt_ext _ _ _ _
       · exact Ext.refl H
     split
     · exact Ext.trans (h1 _) (alloc_ext _ _ _)
@@ -279,12 +283,20 @@ theorem wrapCond_writes (H : Heap) (kind : Nat) (conds : Slice) : (wrapCond H ki
       · split <;> rfl
       · rfl
 
-theorem whereBuild_ext (fuel : Nat) (H : Heap) (w : Slice) : Ext H (whereBuild fuel H w).1 := by
+theorem whereBuild_ext (cp : Bool) (fuel : Nat) (H : Heap) (w : Slice) : Ext H (whereBuild cp fuel H w).1 := by
   unfold whereBuild
   simp only
   split
-  · exact Ext.trans (writeAt_ext _ _ _ _) (writeAt_ext _ _ _ _)
+  · split
+    · exact Ext.refl H
+    · exact Ext.trans (writeAt_ext _ _ _ _) (writeAt_ext _ _ _ _)
   · exact Ext.refl H
+
+/-- FROZEN, `Where.Build` that swaps on a copy: the heap is not touched at all -/
+theorem whereBuild_copies_heap (fuel : Nat) (H : Heap) (w : Slice) : (whereBuild true fuel H w).1 = H := by
+  unfold whereBuild
+  simp only
+  split <;> rfl
 
 /-! ## rendering and history steps -/
 
@@ -304,31 +316,42 @@ theorem firstPrep_ext (m : MergeCfg) (fin : Nat) (H : Heap) (st : Stmt) : Ext H 
   · exact Ext.trans (alloc_ext H [.atom 0] 1) (addOrder_ext _ _ _ _)
   · exact Ext.refl H
 
-theorem whereToks_ext (fuel : Nat) (H : Heap) (st : Stmt) : Ext H (whereToks fuel H st).1 := by
+theorem whereToks_ext (cp : Bool) (fuel : Nat) (H : Heap) (st : Stmt) : Ext H (whereToks cp fuel H st).1 := by
   unfold whereToks
   split
-  · exact whereBuild_ext fuel H _
+  · exact whereBuild_ext cp fuel H _
   · exact Ext.refl H
 
-theorem groupToks_ext (fuel : Nat) (H : Heap) (st : Stmt) : Ext H (groupToks fuel H st).1 := by
+theorem groupToks_ext (cp : Bool) (fuel : Nat) (H : Heap) (st : Stmt) : Ext H (groupToks cp fuel H st).1 := by
   unfold groupToks
   split
   · split
-    · exact whereBuild_ext fuel H _
+    · exact whereBuild_ext cp fuel H _
     · exact Ext.refl H
   · exact Ext.refl H
 
-theorem renderStmt_ext (m : MergeCfg) (fuel : Nat) (H : Heap) (st : Stmt) (fin : Nat) :
-    Ext H (renderStmt m fuel H st fin).1 := by
+theorem renderStmt_ext (m : MergeCfg) (cp : Bool) (fuel : Nat) (H : Heap) (st : Stmt) (fin : Nat) :
+    Ext H (renderStmt m cp fuel H st fin).1 := by
   unfold renderStmt
   simp only
   split
-  · exact Ext.trans (execScopes_ext m H st) (Ext.trans (firstPrep_ext _ _ _ _) (whereToks_ext _ _ _))
-  · exact Ext.trans (execScopes_ext m H st) (Ext.trans (firstPrep_ext _ _ _ _) (Ext.trans (whereToks_ext _ _ _) (groupToks_ext _ _ _)))
+  · exact Ext.trans (execScopes_ext m H st) (Ext.trans (firstPrep_ext _ _ _ _) (whereToks_ext _ _ _ _))
+  · exact Ext.trans (execScopes_ext m H st) (Ext.trans (firstPrep_ext _ _ _ _) (Ext.trans (whereToks_ext _ _ _ _) (groupToks_ext _ _ _ _)))
 
 theorem appendFold_ext (l : List Nat) (p : Heap × Slice) :
     Ext p.1 (l.foldl (fun (p : Heap × Slice) b => appendS p.1 p.2 [.atom b]) p).1 :=
   foldl_ext _ (fun p _ => appendS_ext p.1 p.2 _) l p
+
+theorem groupArgStmt_ext (c : CloneCfg) (m : MergeCfg) (inst : Bool) (H : Heap) (arg : Handle) :
+    Ext H (groupArgStmt c m inst H arg).1 := by
+  unfold groupArgStmt
+  split
+  · exact Ext.refl H
+  · split
+    · exact Ext.trans (cloneStmt_ext c H arg.st) (execScopes_ext _ _ _)
+    · split
+      · exact execScopes_ext _ _ _
+      · exact Ext.refl H
 
 theorem chainOn_ext (c : Cfg) (slices : List (List Nat × Nat)) (S : State) (H : Heap) (st : Stmt) (op : Op) :
     Ext H (chainOn c slices S H st op).1 := by
@@ -339,7 +362,9 @@ theorem chainOn_ext (c : Cfg) (slices : List (List Nat × Nat)) (S : State) (H :
     · rename_i e; rw [e] at h0; exact Ext.trans h0 (addWhere_ext _ _ _ _)
     · rename_i e; rw [e] at h0; exact h0
   case condG kind _ arg =>
-    have h0 := Ext.trans (buildCondGroup_ext H (S.handle arg).st) (wrapCond_ext (buildCondGroup H (S.handle arg).st).1 kind (buildCondGroup H (S.handle arg).st).2)
+    have hg := groupArgStmt_ext c.cl c.mg c.fx.groupInstance H (S.handle arg)
+    generalize groupArgStmt c.cl c.mg c.fx.groupInstance H (S.handle arg) = ga at hg ⊢
+    have h0 := Ext.trans hg (Ext.trans (buildCondGroup_ext c.fx.groupCopies ga.1 ga.2) (wrapCond_ext (buildCondGroup c.fx.groupCopies ga.1 ga.2).1 kind (buildCondGroup c.fx.groupCopies ga.1 ga.2).2))
     split
     · rename_i e; rw [e] at h0; exact Ext.trans h0 (addWhere_ext _ _ _ _)
     · rename_i e; rw [e] at h0; exact h0
@@ -347,14 +372,19 @@ theorem chainOn_ext (c : Cfg) (slices : List (List Nat × Nat)) (S : State) (H :
   case orderC => exact addOrder_ext _ _ _ _
   case group _ a => exact Ext.trans (alloc_ext H [.atom a] 1) (addGroup_ext _ _ _ _ _)
   case having _ a => exact Ext.trans (condAtom_ext H a) (addGroup_ext _ _ _ _ _)
-  case havingG _ arg => exact Ext.trans (buildCondGroup_ext H (S.handle arg).st) (addGroup_ext _ _ _ _ _)
+  case havingG _ arg =>
+    exact Ext.trans (groupArgStmt_ext c.cl c.mg c.fx.groupInstance H (S.handle arg))
+      (Ext.trans (buildCondGroup_ext _ _ _) (addGroup_ext _ _ _ _ _))
   case ret _ cols => exact Ext.trans (alloc_ext H (cols.map .atom) cols.length) (addRet_ext _ _ _ _)
   case retStar => exact addRet_ext _ _ _ _
   case select _ cols =>
     cases cols with
     | nil => exact Ext.refl H
     | cons a rest => exact Ext.trans (alloc_ext H [.atom a] 1) (appendFold_ext rest _)
-  case selectS _ sl k extra => exact appendFold_ext extra (H, _)
+  case selectS _ sl k extra =>
+    split
+    · exact Ext.trans (makeCopy_ext H _) (appendFold_ext extra _)
+    · exact appendFold_ext extra (H, _)
   case «omit» _ cols => exact alloc_ext _ _ _
   case joins => exact appendS_ext _ _ _
   case scopes => exact appendS_ext _ _ _
@@ -369,7 +399,7 @@ theorem step_ext (c : Cfg) (slices : List (List Nat × Nat)) (fuel : Nat) (S : S
   case newdb => exact Ext.refl _
   case ctx => exact cloneStmt_ext _ _ _
   case begin => exact Ext.trans (getInstance_ext _ _ _) (cloneStmt_ext _ _ _)
-  case render => exact Ext.trans (getInstance_ext _ _ _) (renderStmt_ext _ _ _ _ _)
+  case render => exact Ext.trans (getInstance_ext _ _ _) (renderStmt_ext _ _ _ _ _ _)
 
 theorem runFrom_ext (c : Cfg) (slices : List (List Nat × Nat)) (fuel : Nat) (ops : List Op) (S : State) :
     Ext S.heap (runFrom c slices fuel S ops).heap := by
